@@ -51,6 +51,8 @@ type Contract struct {
 	File     string
 	Line     int
 	Findings []*FindingSplit
+	Witness  []*Clause
+	Uses     []string
 }
 
 // FindingSplit: a known finding attached to an ensures/site label; Disc is the
@@ -107,7 +109,7 @@ type Contracts struct {
 	Lines   int
 }
 
-var kwRe = regexp.MustCompile(`^(func|prop|requires|ensures|modifies|loop|site|trusted|inline|let|pure|axiom|lemma|invariant|nopanic|maypanic|finding|ispure)\b`)
+var kwRe = regexp.MustCompile(`^(func|prop|requires|ensures|modifies|loop|site|trusted|inline|let|pure|axiom|lemma|invariant|nopanic|maypanic|finding|ispure|witness|uses)\b`)
 
 func LoadContracts(p *Program) (*Contracts, error) {
 	cs := &Contracts{Fns: map[string]*Contract{}, Pures: map[string]*PureFn{}, RepInvs: map[string]*RepInv{}}
@@ -281,6 +283,14 @@ func (cs *Contracts) parseFile(path string, pkg *types.Package) error {
 				cur.Sites = append(cur.Sites, ss)
 			}
 			ss.Requires = append(ss.Requires, c)
+		case "witness":
+			e, err := ParseExpr(rest)
+			if err != nil {
+				return fail(rc, "%v", err)
+			}
+			cur.Witness = append(cur.Witness, &Clause{Expr: e, Src: rest, File: path, Line: rc.line})
+		case "uses":
+			cur.Uses = append(cur.Uses, strings.Fields(rest)...)
 		case "trusted":
 			cur.Trusted = true
 		case "inline":
